@@ -76,6 +76,16 @@ def main():
         res["detected"] = rc == 1 and "VIOLATION property=%s" % prop in o
         if rc not in (0, 1):
             res["check_output_tail"] = o[-1500:]
+        # a change seeded for one property may break a neighbouring one: --also C14,C09 runs those checks too
+        if "--also" in sys.argv:
+            res["also"] = {}
+            for other in sys.argv[sys.argv.index("--also") + 1].split(","):
+                rc2, o2 = sh("/venv/bin/python run_check.py %s --tier %s" % (other, tier), cwd=V, env=env2, timeout=7200)
+                res["also"][other] = {"exit": rc2, "detected": rc2 == 1 and "VIOLATION property=%s" % other in o2,
+                                      "tags": sorted({l.split("violated oracle clause: ")[1].split(" (")[0] for l in o2.splitlines()
+                                                      if l.startswith("violated oracle clause: ")})}
+                sh("git checkout -- evidence/%s.json" % other, cwd=V)
+                sh("rm -f replays/%s-*.json" % other, cwd=V)
     finally:
         sh("git -C /repo worktree remove --force %s" % wt)
         try:
